@@ -125,13 +125,18 @@ func c10Policies(c *Ctx, r *Report) {
 					if callee == "sync/atomic.AddUint32" && n > 0 {
 						// the shared round-robin counter can hold any value at the first increment (every residue modulo
 						// the pool size is explored); later increments of the same selection continue from it
+						// AddUint32 returns the old value plus the delta it is given
+						delta := int64(1)
+						if len(args) == 2 && args[1].K == "int" && args[1].Known {
+							delta = args[1].N
+						}
 						if prev, ok := st.heap["robin.val"]; ok {
-							v := prev.N + 1
+							v := prev.N + delta
 							return []CallAlt{{Ret: symInt(v), Note: fmt.Sprintf("counter=%d", v), Effect: func(ev *symEval, st *symState) { st.heap["robin.val"] = symInt(v) }}}
 						}
 						var a []CallAlt
 						for i := int64(0); i < int64(n); i++ {
-							v := i
+							v := i + delta
 							a = append(a, CallAlt{Ret: symInt(v), Note: fmt.Sprintf("counter=%d", v), Effect: func(ev *symEval, st *symState) { st.heap["robin.val"] = symInt(v) }})
 						}
 						return a
@@ -266,6 +271,69 @@ func c10R5(c *Ctx, r *Report, rule string) {
 		}
 		r.check(good, rule, fname(fn), "hash inputs", c.pos(fn.Pos()), "key = upstream string + client key only", "ip_hash is not a deterministic function of upstream and client: "+detail)
 	}
+	c10HashKey(c, r, rule)
+}
+
+// c10HashKey: the client key of ip_hash, evaluated over the outcomes of splitting the remote address.
+func c10HashKey(c *Ctx, r *Report, rule string) {
+	fnName := "modules/l4proxy.(*IPHashSelection).Select"
+	fn := c.Fn(fnName)
+	if fn == nil {
+		r.bad(rule, fnName, "exists", "-", "function not found")
+		return
+	}
+	sc := &Scenario{Name: "hash key", ByType: map[string]SV{"modules/l4proxy.UpstreamPool": symSlice("pool", 2), "layer4.Connection": symRef("conn", false)}, NoDefaultInline: true}
+	sc.Call = func(callee string, args []SV, ev *symEval, st *symState) (SV, bool) {
+		switch {
+		case callee == "modules/l4proxy.hostByHashing":
+			key := ""
+			for _, a := range args {
+				if a.K == "str" {
+					key = a.Desc
+				}
+			}
+			return symRef("chosen("+key+")", false), true
+		case strings.HasSuffix(callee, "Addr.String"):
+			return SV{K: "str", Desc: "remote"}, true
+		case strings.Contains(callee, "RemoteAddr"):
+			return symRef("addr", false), true
+		}
+		return SV{}, false
+	}
+	sc.Alts = func(callee string, args []SV, ev *symEval, st *symState) []CallAlt {
+		if callee == "net.SplitHostPort" {
+			return []CallAlt{
+				{Ret: symTuple(SV{K: "str", Desc: "host"}, SV{K: "str", Desc: "port"}, symNil()), Note: "split"},
+				{Ret: symTuple(symStr(""), symStr(""), SV{K: "ref", Known: true, Desc: "splitErr"}), Note: "no port"},
+			}
+		}
+		return nil
+	}
+	paths, err := evalPaths(fn, sc)
+	if err != nil || len(paths) == 0 {
+		r.bad(rule, fnName, "client key", c.pos(fn.Pos()), fmt.Sprintf("undecided: %v", err))
+		return
+	}
+	var problems []string
+	for _, p := range paths {
+		outcome := ""
+		for _, e := range p.Trace {
+			if e.Kind == "call" && e.What == "net.SplitHostPort" {
+				outcome = e.Note
+				if len(e.Args) != 1 || e.Args[0] != "remote" {
+					problems = append(problems, "splits "+strings.Join(e.Args, ","))
+				}
+			}
+		}
+		want := "chosen(host)"
+		if outcome == "no port" {
+			want = "chosen(remote)"
+		}
+		if len(p.Ret) != 1 || p.Ret[0].Desc != want {
+			problems = append(problems, fmt.Sprintf("remote address %s: the policy answers %s, expected %s (the hash key must be the client IP without the port, so that every connection of a client lands on the same upstream)", outcome, p.retDesc(), want))
+		}
+	}
+	r.check(len(problems) == 0, rule, fnName, "client key", c.pos(fn.Pos()), fmt.Sprintf("%d paths: the host part when the address has a port, the whole address otherwise", len(paths)), strings.Join(dedup(problems), "; "))
 }
 
 // c10Limits: what "below its connection limit" is measured against. Outside the unmarshallers the connection
